@@ -220,7 +220,24 @@ Definition method_ok (rt : route) (m : string) : bool :=
   | ms => existsb (String.eqb m) ms
   end.
 
-Inductive found := FRoute (rt : route) | F405 | F404.
+Inductive found := FRoute (rt : route) | F405 | F404 | F301.
+
+(* mux.Router.ServeHTTP, before any matching (SkipClean is not set): if cleanPath(path) <> path the router answers
+   301 Moved Permanently with the cleaned Location -- no route is matched, no middleware and no handler runs.
+   cleanPath(p) = p exactly when p starts with "/" and, split on "/", no segment after the leading empty one is
+   "." or ".." and none but the last is empty (path.Clean, with a trailing slash kept). *)
+Definition seg_dot (s : string) : bool := String.eqb s "." || String.eqb s "..".
+Fixpoint segs_clean (l : list string) : bool :=
+  match l with
+  | [] => true
+  | [s] => negb (seg_dot s)
+  | s :: r => negb (is_empty s) && negb (seg_dot s) && segs_clean r
+  end.
+Definition path_clean (p : string) : bool :=
+  match split_on "/"%char p with
+  | first :: s :: r => is_empty first && segs_clean (s :: r)
+  | _ => false
+  end.
 (* psegs = the request path split on "/" *)
 Fixpoint find_route (crs : list croute) (m path : string) (psegs : list string) (seen : bool) : found :=
   match crs with
@@ -230,8 +247,11 @@ Fixpoint find_route (crs : list croute) (m path : string) (psegs : list string) 
         if method_ok (cr_route cr) m then FRoute (cr_route cr) else find_route rest m path psegs true
       else find_route rest m path psegs seen
   end.
+(* Router.Match behind the path cleaning *)
+Definition route_request (crs : list croute) (m path : string) : found :=
+  if path_clean path then find_route crs m path (split_on "/"%char path) false else F301.
 Definition lookup (ops : list rop) (root : nat) (m path : string) : found :=
-  find_route (compile ops root) m path (split_on "/"%char path) false.
+  route_request (compile ops root) m path.
 (* every template and matcher is inside the fragment that path_match / method_ok transcribe exactly *)
 Definition dispatch_exact (ops : list rop) : bool :=
   forallb (fun rt => rt_exact rt && tpl_supported (rt_prefix rt) (full_tpl ops rt)) (routes ops)
@@ -305,10 +325,11 @@ Section SERVE.
     {| p_status := st; p_www := false; p_gzip := false; p_cors := false; p_trace := [] |}.
   (* Router.ServeHTTP of the served root router `root`; crs = compile ops root *)
   Definition dispatch_c (crs : list croute) (ops : list rop) (q : request) : response :=
-    match find_route crs (q_method q) (q_path q) (split_on "/"%char (q_path q)) false with
+    match route_request crs (q_method q) (q_path q) with
     | FRoute rt => serve (chain ops (rt_router rt)) q
     | F405 => plain 405
     | F404 => plain 404
+    | F301 => plain 301
     end.
   Definition dispatch (ops : list rop) (root : nat) (q : request) : response := dispatch_c (compile ops root) ops q.
 End SERVE.
@@ -342,11 +363,13 @@ Definition mismatches (check_err : bool) (login pass : string) (ops : list rop) 
 Definition spec_ok (login pass : string) (c : rcase) : bool :=
   let o := c_obs c in
   let st := o_status o in
+  (* the router's own redirect of a path that is not in canonical form: nothing behind the router ran *)
+  let redirected := N.eqb st 301 && negb (path_clean (q_path (c_req c))) && negb (o_handler o) && N.eqb (o_backend o) 0 in
   if carries_credentials login pass (q_auth (c_req c)) then
     has_char ":"%char login || negb (exact_credentials login pass (q_auth (c_req c)))
-    || negb (N.eqb st 401 || N.eqb st 400) && (o_handler o || N.eqb st 404 || N.eqb st 405)
+    || negb (N.eqb st 401 || N.eqb st 400) && (o_handler o || N.eqb st 404 || N.eqb st 405 || redirected)
   else negb (o_handler o) && N.eqb (o_backend o) 0
-       && (N.eqb st 401 || N.eqb st 400 || N.eqb st 404 || N.eqb st 405).
+       && (N.eqb st 401 || N.eqb st 400 || N.eqb st 404 || N.eqb st 405 || redirected).
 Definition spec_violations (login pass : string) (cs : list rcase) : list N :=
   flat_map (fun c => if spec_ok login pass c then [] else [c_id c]) cs.
 
